@@ -159,12 +159,12 @@ def run_sweep(item, seed):
             ctx.nontrivial(b.name, b.entry, "sweep", int(n.max()), int(aux.sum()))
             for e in np.flatnonzero(first >= 0)[:3]:
                 rec = episodes.Recorder(ctx, b, [int(kws[e][0]), int(kws[e][1])])
-                before = len(ctx.failures)
+                before = sum(f["hits"] for f in ctx.failures.values())
                 with ctx.guard(b.name, rec.case(), size=10**6):
                     episodes.run_actions(b, rec, [np.asarray(a).tolist() for a in acts[e][: int(first[e])]],
                                          Mon(b, ctx, None))
                 ctx.count("sweep_flagged")
-                if len(ctx.failures) == before:
+                if sum(f["hits"] for f in ctx.failures.values()) == before:
                     ctx.count("sweep_unconfirmed")
             if len(ctx.samples) < 2:
                 ctx.sample({"env": b.name, "entry": b.entry, "sweep_base_key": list(key), "salt": salt,
